@@ -12,7 +12,9 @@ attrpaths with dots, duplicate keys) gives `none`. `some d` means: Nix reads the
 Token rules mirrored from the Nix lexer (`lexer.l`):
   ID     [a-zA-Z_][a-zA-Z0-9_'-]*        INT  [0-9]+   (must fit a signed 64-bit integer)
   FLOAT  (([1-9][0-9]*\.[0-9]*)|(0?\.[0-9]+))([Ee][+-]?[0-9]+)?
-  STRING body: `decodeBody` (Model/Escape.lean)
+  STRING body: `decodeBody` (Model/Escape.lean); a raw carriage return inside a string literal is
+         normalised to a line feed by Nix (`unescapeStr`), so a body holding a raw CR is outside the
+         fragment (the CR would not be read back)
 A literal or identifier must be followed by white space, `;`, `]`, `}` (identifiers also by `=`) or
 the end of the text; anything else would start a different Nix token (a path `1/2`, an application
 `1a`, …) and is rejected.
@@ -100,7 +102,9 @@ def lexStep : Text → Option (Option Tok × Text)
       match scanStr cs with
       | none => none
       | some (body, rest) =>
-        if litEnd rest then (decodeBody body).map fun s => (some (.str s), rest) else none
+        if litEnd rest && !body.contains '\r' then
+          (decodeBody body).map fun s => (some (.str s), rest)
+        else none
     else if isAsciiDigit c || c = '.' then
       let t := (c :: cs).takeWhile isNumChar
       let rest := (c :: cs).dropWhile isNumChar
